@@ -32,6 +32,8 @@ def re_finditer(ex, pat: bytes, data: VBytes, st):
     n = fresh("nmatch", I)
     st.assume(n >= 0)
     it = VObj("matchiter", {"n": n, "MS": fresh("MS", ArrII), "ME": fresh("ME", ArrII), "pat": pat, "data": data.z, "groups": {}})
+    if hasattr(st, "matchiters"):
+        st.matchiters.append((pat, data.z, it))
     return it
 
 
@@ -788,6 +790,24 @@ def EM_max(ex, node, st):
     raise Unsupported("max with keyword arguments")
 
 
+def _sym_consts(fs):
+    """The uninterpreted constants (arity 0) occurring in the formulas, each once."""
+    seen, out, todo = set(), {}, list(fs)
+    while todo:
+        e = todo.pop()
+        if e.get_id() in seen:
+            continue
+        seen.add(e.get_id())
+        if z3.is_quantifier(e):
+            todo.append(e.body())
+            continue
+        if z3.is_app(e):
+            if e.num_args() == 0 and e.decl().kind() == z3.Z3_OP_UNINTERPRETED:
+                out[e.decl().name()] = e
+            todo.extend(e.children())
+    return list(out.values())
+
+
 # ---------------------------------------------------------------------------------------------- comprehensions
 def comprehension(ex, node, st, kind):
     from . import engine_models as EM
@@ -810,6 +830,7 @@ def comprehension(ex, node, st, kind):
     A0 = sc.alloc
     i = None
     has_filter = False
+    filt = []
     for gk, gen in enumerate(gens):
         itk = it if gk == 0 else ex.iter_source(gen.iter, sc)
         ik = fresh("ci", I)
@@ -822,6 +843,7 @@ def comprehension(ex, node, st, kind):
             ex.assumed.add(f"trusted lemma about the elements `{gen.target.id}` of a comprehension in {ex.qualname}: {ex.c.comp_assume[gen.target.id]}")
         for cond in gen.ifs:
             c = ex.truthy(ex.eval(cond, sc), sc)
+            filt.append(c)
             sc.assume(c)
             has_filter = True
     if len(gens) > 1:
@@ -851,6 +873,30 @@ def comprehension(ex, node, st, kind):
         st.assume(0 <= m)
         if len(gens) == 1:
             st.assume(m <= n)
+            if filt:
+                # a filter that holds of EVERY element drops none: (forall element facts -> conditions) -> m == n.  The symbols made while
+                # evaluating the element are universally quantified (the strongest reading); the facts are those of the encoding about element i
+                from .solve import _consts as _cs
+
+                memo_ = {}
+                known_ = set()
+                for c_ in st.path:
+                    known_ |= _cs(c_, memo_)
+                for v_ in st.store.values():
+                    for a_ in vars(v_).values() if hasattr(v_, "__dict__") else ():
+                        if isinstance(a_, z3.ExprRef):
+                            known_ |= _cs(a_, memo_)
+                fids = {c_.get_id() for c_ in filt}
+                ante = [c_ for c_ in sc.path[len(st.path):] if c_.get_id() not in fids]
+                new_syms = set()
+                for c_ in ante + filt:
+                    new_syms |= _cs(c_, memo_) - known_
+                bound_ = [v_ for v_ in _sym_consts(ante + filt) if v_.decl().name() in new_syms and v_.decl().arity() == 0]
+                body_ = z3.Implies(z3.And(*ante) if ante else z3.BoolVal(True), z3.And(*filt))
+                # (forall x. P(x)) -> m == n, stated without a quantifier: m == n or not P(w) for NEW witness constants w (never the symbols of
+                # the arbitrary element, which stand for every element in the obligations about it)
+                wit_ = [(v_, fresh("w_" + v_.decl().name().split("!")[0], v_.sort())) for v_ in bound_]
+                st.assume(z3.Or(m == n, z3.Not(z3.substitute(body_, *wit_) if wit_ else body_)))
     if isinstance(e, VRef):
         return comp_nodes(ex, st, sc, e, A0, m, i)
     if isinstance(e, VJson):
